@@ -242,6 +242,10 @@ func cmdEval(prop string, n int, seed uint64, driver, out, corpus string) (*Resu
 	for i, c := range cases {
 		mt := ParseLine(modelLines[i])
 		mo, gout := decodeOut(mt), decodeOut(goOut[i])
+		if gout.Status == 3 && len(goOut[i].L) > 1 {
+			res.Distribution["skipped_after_hang"]++
+			continue
+		}
 		// distribution
 		res.Distribution["model_"+mo.statusStr()]++
 		if mo.Status == 1 {
